@@ -64,6 +64,7 @@ Definition res_opt {A} (r : res A) : option A := match r with Ok a => Some a | E
 (** generous fuel for the spec-side functions on one document *)
 Definition sp_fuel (D : opdoc) : nat := doc_fuel D.
 Definition HT_FUEL : nat := 200.
+Definition CAND_CAP : nat := 400.
 
 Definition guard_safe (S : tsdoc) (D : opdoc) (d : execdef) : bool :=
   match def_target S d with
@@ -128,7 +129,7 @@ Definition c01_on (S : tsdoc) (D : opdoc) (d : execdef) (t : tstype) : bool :=
       let F := sp_frags D in
       let E := schema_env S in
       let fuel := sp_fuel D in
-      let cands := flat_map (fun sg => map (fun v => (sg, v)) (exec_enum S F fuel sg fuel T sels)) (sigmas D) in
+      let cands := sample CAND_CAP (flat_map (fun sg => map (fun v => (sg, v)) (exec_enum S F fuel sg fuel T sels)) (sigmas D)) in
       let real := filter (fun p => exec_b S F fuel (fst p) fuel T sels (snd p)) cands in
       negb (is_nil real) && forallb (fun p => admits E HT_FUEL t (snd p)) real
   end.
@@ -141,7 +142,7 @@ Definition c02_with (relaxed : bool) (S : tsdoc) (D : opdoc) (d : execdef) (t : 
       let F := sp_frags D in
       let E := schema_env S in
       let fuel := sp_fuel D in
-      let inh := filter (admits E HT_FUEL t) (inhabitants E HT_FUEL t) in
+      let inh := filter (admits E HT_FUEL t) (sample CAND_CAP (inhabitants E HT_FUEL t)) in
       negb (is_nil inh) && forallb (fun v => den S F fuel (local_choices fuel F) relaxed fuel T sels v) inh
   end.
 Definition c02_on := c02_with false.
